@@ -569,6 +569,41 @@ func (rs *RelationService) updatePageTable(fileOffset uint64, tableName string) 
 	return walLogs, nil
 }
 
+// moveTableRoot points the page table entry that refers to root page oldRoot
+// at newRoot. It is used by log replay, which knows a table only by its root.
+func (rs *RelationService) moveTableRoot(oldRoot uint64, newRoot uint64, lsn uint64) error {
+	pgTablePg, err := rs.fs.fetch(rs.fs.pageTableRoot)
+	if err != nil {
+		return err
+	}
+
+	bt := &BTree{store: rs.fs}
+	bt.setRoot(pgTablePg)
+
+	return bt.scanRight(func(cell *leafCell) (ScanAction, error) {
+		tuple := Tuple{
+			Relation: &pageTableSchema,
+			Vals:     make(map[string]interface{}),
+		}
+		if err := tuple.Decode(bytes.NewBuffer(cell.valueBytes)); err != nil {
+			return StopScanning, err
+		}
+		if tuple.Vals["file_offset"] != int64(oldRoot) {
+			return KeepScanning, nil
+		}
+		tuple.Vals["file_offset"] = int64(newRoot)
+		buf, err := tuple.Encode()
+		if err != nil {
+			return StopScanning, err
+		}
+		if err := cell.pg.updateCell(cell.key, buf.Bytes()); err != nil {
+			return StopScanning, err
+		}
+		cell.pg.markDirty(lsn)
+		return StopScanning, nil
+	})
+}
+
 func (rs *RelationService) insertSchemaTable(r *Relation, tableName string) error {
 
 	fileOffset, err := rs.getRelationFileOffset(schemaTableName)
